@@ -11,6 +11,7 @@
                    L<i>:<status>:<size> (what logger.New logged)  M<i>:<status> (metrics.New)
             hdrs = k:v.v;k:v sorted by key
    stdout: MISMATCH <TAB> fields <TAB> PROG <TAB> impl OBS <TAB> model OBS     per disagreement
+           VMCASE <TAB> hex(PROG) <TAB> (forget (exec ..), final_aborted ..) as a Coq term   only with VM_SAMPLE (util.ml)
            SUMMARY k=v ...                                                      last line *)
 open Model
 open Util
@@ -138,6 +139,37 @@ let model_obs (p : prog) : (string * string) list * core outcome =
   | OutOfFuel -> ([ ("t", "OUT-OF-FUEL") ], fo)
   | Stuck -> ([ ("t", "STUCK") ], fo)
 
+(* ---- extraction re-validation: the model's result as a Coq term (util.ml, checks/common.py vm_crosscheck) ---- *)
+let coq_hdrs (h : hdrs) : string = coq_list (coq_pair coq_n (coq_list coq_n)) h
+let coq_wop = function
+  | OpWH c -> "(OpWH " ^ coq_n c ^ ")"
+  | OpW l -> "(OpW " ^ coq_n l ^ ")"
+let coq_event = function
+  | EEnter i -> "(EEnter " ^ coq_z i ^ ")"
+  | EExit i -> "(EExit " ^ coq_z i ^ ")"
+  | ENextCall i -> "(ENextCall " ^ coq_z i ^ ")"
+  | ENextRet i -> "(ENextRet " ^ coq_z i ^ ")"
+  | EAbort i -> "(EAbort " ^ coq_z i ^ ")"
+  | EUnwind i -> "(EUnwind " ^ coq_z i ^ ")"
+  | ERecovered (i, b, c) -> Printf.sprintf "(ERecovered %s %s %s)" (coq_z i) (coq_bool b) (coq_n c)
+  | EObs (i, st, wr, sz, ab) ->
+    Printf.sprintf "(EObs %s %s %s %s %s)" (coq_z i) (coq_n st) (coq_bool wr) (coq_n sz) (coq_bool ab)
+let coq_wstate (w : wstate) : string =
+  Printf.sprintf "(mkW (mkWrap %s %s %s) (mkRec %s %s %s %s %s %s) %s)"
+    (coq_n w.wr.w_status) (coq_bool w.wr.w_written) (coq_n w.wr.w_size)
+    (coq_bool w.rc.r_wrote) (coq_n w.rc.r_code) (coq_nlist w.rc.r_body) (coq_hdrs w.rc.r_hdr)
+    (coq_option coq_hdrs w.rc.r_snap) (coq_n w.rc.r_acc) (coq_list coq_wop w.ops)
+let coq_core (c : core) : string =
+  Printf.sprintf "(mkC %s %s %s)" (coq_wstate c.c_w) (coq_nlist c.c_path) (coq_list coq_event c.c_tr)
+let coq_outcome (o : core outcome) : string =
+  match o with
+  | Done c -> "(Done " ^ coq_core c ^ ")"
+  | Panicked c -> "(Panicked " ^ coq_core c ^ ")"
+  | OutOfFuel -> "OutOfFuel"
+  | Stuck -> "Stuck"
+let hex_of_string (s : string) : string =
+  String.concat "" (List.init (String.length s) (fun i -> Printf.sprintf "%02x" (Char.code s.[i])))
+
 let parse_obs (s : string) : (string * string) list =
   List.map (fun kv ->
     match String.index_opt kv '=' with
@@ -171,6 +203,9 @@ let () =
               let (mo, fo) = model_obs p in
               (* extraction sanity: the two interpreters agree (proved as exec_ref) *)
               if fo <> Model.ref p.hs (bytes_of_string p.path) then incr refdiff;
+              if vm_pick !n then
+                Printf.printf "VMCASE\t%s\t(%s, %s)\n" (hex_of_string ps) (coq_outcome fo)
+                  (coq_bool (final_aborted p.hs (exec (exec_fuel p.hs) p.hs (bytes_of_string p.path))));
               let io = parse_obs os in
               let bad = List.filter (fun (k, v) ->
                   match List.assoc_opt k io with
